@@ -894,6 +894,33 @@ fn trunc(s: String, n: usize) -> String {
     }
 }
 
+thread_local! {
+    /// set for single actions: the value goes in through the public trait method `Writable::write(&value, &mut writer)` (what
+    /// a hand-written `Writable` impl of a wrapper type does for its fields) instead of through `writer.write(&value)`
+    static VIA_TRAIT: Cell<bool> = Cell::new(false);
+}
+
+struct ViaTraitGuard;
+impl ViaTraitGuard {
+    fn set() -> Self {
+        VIA_TRAIT.with(|c| c.set(true));
+        ViaTraitGuard
+    }
+}
+impl Drop for ViaTraitGuard {
+    fn drop(&mut self) {
+        VIA_TRAIT.with(|c| c.set(false));
+    }
+}
+
+fn put<T: Writable>(w: &mut Writer, v: &T) {
+    if VIA_TRAIT.with(|c| c.get()) {
+        Writable::write(v, w)
+    } else {
+        w.write(v)
+    }
+}
+
 trait PieceT {
     fn kind(&self) -> &'static str;
     /// oracle rendering
@@ -918,7 +945,7 @@ impl<T: Writable + Readable + Ren + PartialEq + Debug> PieceT for Plain<T> {
         self.v.ren(out);
     }
     fn write_to(&self, w: &mut Writer) {
-        w.write(&self.v);
+        put(w, &self.v);
     }
     fn read_check(&self, r: &mut Reader) -> Result<u64, String> {
         let got: T = lib!(r.read::<T>());
@@ -946,7 +973,7 @@ impl<T: Writable + Readable + Ren + PartialEq + Debug> PieceT for PVec<T> {
         self.v.ren(out);
     }
     fn write_to(&self, w: &mut Writer) {
-        w.write(&self.v);
+        put(w, &self.v);
     }
     fn read_check(&self, r: &mut Reader) -> Result<u64, String> {
         let got: Vec<T> = lib!(r.read_vec::<T>(self.v.len()));
@@ -996,7 +1023,7 @@ impl PieceT for StrRef {
     }
     fn write_to(&self, w: &mut Writer) {
         let r: &str = self.s.as_str();
-        w.write(&r);
+        put(w, &r);
     }
     fn read_check(&self, r: &mut Reader) -> Result<u64, String> {
         read_tokens(&self.s, r)
@@ -1018,7 +1045,7 @@ impl PieceT for StrOwned {
         out.extend_from_slice(self.s.as_bytes());
     }
     fn write_to(&self, w: &mut Writer) {
-        w.write(&self.s);
+        put(w, &self.s);
     }
     fn read_check(&self, r: &mut Reader) -> Result<u64, String> {
         read_tokens(&self.s, r)
@@ -1039,7 +1066,7 @@ impl PieceT for VecVec {
         self.v.ren(out);
     }
     fn write_to(&self, w: &mut Writer) {
-        w.write(&self.v);
+        put(w, &self.v);
     }
     fn read_check(&self, r: &mut Reader) -> Result<u64, String> {
         let mut n = 0;
@@ -1068,7 +1095,7 @@ impl PieceT for TupVec {
         self.v.ren(out);
     }
     fn write_to(&self, w: &mut Writer) {
-        w.write(&self.v);
+        put(w, &self.v);
     }
     fn read_check(&self, r: &mut Reader) -> Result<u64, String> {
         let a: u8 = lib!(r.read::<u8>());
@@ -1646,6 +1673,7 @@ fn run_actions(spec: &CaseSpec, buf: usize, rep: &mut Report, verbose: bool) {
     // a quarter of the cases run with a re-entrant sink, another quarter moves the writer between writes
     let variant = case_seed(spec.base_seed, spec.mode, &spec.id) >> 7;
     let mut excursions = 0u64;
+    let mut via_trait = 0u64;
     REENTRANT_SINK_ERRORS.with(|c| c.set(0));
     REENTRANT_SINK_CALLS.with(|c| c.set(0));
     let mut bad: Option<Bad> = None;
@@ -1669,11 +1697,20 @@ fn run_actions(spec: &CaseSpec, buf: usize, rep: &mut Report, verbose: bool) {
                     // place, and is moved back (a Writer is an ordinary movable value: mem::swap, Box::new, a struct field)
                     cur_fn.set("write");
                     excursions += 1;
-                    let mut elsewhere = lib!(Writer::new(Box::new(io::sink())));
-                    std::mem::swap(&mut *writer, &mut elsewhere);
+                    // (never dropped implicitly: if the write panics, the writer under test sits in `elsewhere`, and its Drop
+                    // would flush - and panic again - while unwinding)
+                    let mut elsewhere = ManuallyDrop::new(lib!(Writer::new(Box::new(io::sink()))));
+                    std::mem::swap(&mut *writer, &mut *elsewhere);
                     lib!(p.write_to(&mut elsewhere));
-                    std::mem::swap(&mut *writer, &mut elsewhere);
-                    drop(elsewhere);
+                    std::mem::swap(&mut *writer, &mut *elsewhere);
+                    // SAFETY: `elsewhere` holds the fresh writer again and is not used afterwards
+                    unsafe { ManuallyDrop::drop(&mut elsewhere) };
+                }
+                Action::W(p) if variant % 4 == 3 && i % 2 == 0 => {
+                    cur_fn.set("write");
+                    via_trait += 1;
+                    let _reset = ViaTraitGuard::set();
+                    lib!(p.write_to(&mut writer));
                 }
                 Action::W(p) => {
                     cur_fn.set("write");
@@ -1869,6 +1906,7 @@ fn run_actions(spec: &CaseSpec, buf: usize, rep: &mut Report, verbose: bool) {
     }
     REENTRANT_SINK.with(|c| c.set(false));
     rep.count("writes_from_another_place_after_a_move", excursions);
+    rep.count("writes_through_the_trait_method", via_trait);
     rep.count("reentrant_sink_calls", REENTRANT_SINK_CALLS.with(|c| c.get()));
     if REENTRANT_SINK_ERRORS.with(|c| c.get()) > 0 {
         rep.violation(
@@ -2318,6 +2356,102 @@ fn self_check(buf: usize) -> Result<(), String> {
 
 const ALL_MODES: [&str; 6] = ["integers", "fill", "strings", "random", "compound", "lifecycle"];
 
+// ------------------------------------------------------------------------------------------------
+// volume: more than 2^32 bytes through ONE writer (a byte counter kept in 32 bits wraps on the way). The sink stores
+// nothing: the expected stream is periodic (one string of 65521 characters and a blank, over and over, with an integer
+// now and then at known positions), so every chunk is compared with the pattern where it arrives.
+
+struct PatternSink {
+    period: Vec<u8>,
+    pos: u64,
+    bad_at: Rc<Cell<Option<u64>>>,
+    total: Rc<Cell<u64>>,
+}
+
+impl Write for PatternSink {
+    fn write(&mut self, buf: &[u8]) -> io::Result<usize> {
+        let p = self.period.len() as u64;
+        let mut off = (self.pos % p) as usize;
+        let mut i = 0usize;
+        while i < buf.len() {
+            let n = (self.period.len() - off).min(buf.len() - i);
+            if buf[i..i + n] != self.period[off..off + n] && self.bad_at.get().is_none() {
+                self.bad_at.set(Some(self.pos + i as u64));
+            }
+            i += n;
+            off = 0;
+        }
+        self.pos += buf.len() as u64;
+        self.total.set(self.pos);
+        Ok(buf.len())
+    }
+    fn flush(&mut self) -> io::Result<()> {
+        Ok(())
+    }
+}
+
+fn run_volume(report: &mut Report) {
+    report.inc("evaluations");
+    let s: String = (0..65_521usize).map(|i| (0x21 + (i * 131 % 94) as u8) as char).collect();
+    let mut period = s.clone().into_bytes();
+    period.push(b' ');
+    let pieces: u64 = ((1u64 << 32) + (1 << 22)) / period.len() as u64 + 1;
+    let bad_at = Rc::new(Cell::new(None));
+    let total = Rc::new(Cell::new(0u64));
+    let want_total = pieces * period.len() as u64;
+    let r = catch(|| {
+        let sink = PatternSink { period: period.clone(), pos: 0, bad_at: bad_at.clone(), total: total.clone() };
+        // (never dropped while unwinding: if a flush panics half-way, the Drop impl would flush - and panic - again)
+        let mut w = ManuallyDrop::new(lib!(Writer::new(Box::new(sink))));
+        for k in 0..pieces {
+            if k % 2 == 0 {
+                lib!(w.write(&s));
+            } else {
+                let r: &str = s.as_str();
+                lib!(w.write(&r));
+            }
+            lib!(w.write_char(' '));
+            if k % 4096 == 4095 {
+                lib!(w.flush());
+            }
+        }
+        lib!(w.flush());
+        drop(ManuallyDrop::into_inner(w));
+    });
+    report.count("volume_bytes_expected", want_total);
+    report.count("volume_bytes_received", total.get());
+    report.see("nontrivial", want_total);
+    let replay = vec!["--mode".to_string(), "volume".to_string()];
+    match r {
+        Err(p) => {
+            if p.in_lib {
+                report.violation(
+                    format!("panic:volume:{}", PROFILE),
+                    Json::obj()
+                        .set("what", "the writer panicked while more than 2^32 bytes went through it")
+                        .set("panic", p.msg.as_str())
+                        .set("at", format!("{}:{}", p.file, p.line))
+                        .set("bytes_received_by_the_sink", total.get()),
+                    replay,
+                );
+            } else {
+                report.inconclusive(format!("harness panic at {}:{}: {}", p.file, p.line, p.msg));
+            }
+        }
+        Ok(()) => {
+            if let Some(at) = bad_at.get() {
+                report.violation(format!("prefix_violation:volume:{}", PROFILE), Json::obj().set("what", "the byte stream differs from what was written").set("first_difference_at_offset", at), replay);
+            } else if total.get() != want_total {
+                report.violation(
+                    format!("conservation:volume:{}", PROFILE),
+                    Json::obj().set("what", "the sink did not receive exactly the bytes that were written").set("received", total.get()).set("expected", want_total),
+                    replay,
+                );
+            }
+        }
+    }
+}
+
 fn main() {
     let eng = Engine::start("writemon");
     let a = &eng.args;
@@ -2343,6 +2477,10 @@ fn main() {
     }
     if buf < 1024 {
         report.inconclusive(format!("buffer size {} is too small for the workloads", buf));
+        eng.finish(report);
+    }
+    if mode == "volume" {
+        run_volume(&mut report);
         eng.finish(report);
     }
     if let Some(c) = a.opt("case") {
